@@ -83,7 +83,7 @@ PROPS["C09"] = dict(
     theorems=["Goflow.C09Trans.parseSampledHeaderConfig_eq", "Goflow.C09Trans.case_sampledHeader", "Goflow.C09Trans.case_sampledIPv4", "Goflow.C09Trans.case_sampledIPv6", "Goflow.C09Trans.case_extendedRouter", "Goflow.C09Trans.case_extendedSwitch", "Goflow.C09Trans.case_extendedGateway", "Goflow.C09Trans.loop1_eq", "Goflow.C09Trans.searchSFlowSampleConfig_eq", "Goflow.C09Trans.searchSFlowSampleConfig_convertSample", "Goflow.C09Trans.getSFlowFlowSamples_eq", "Goflow.C09Trans.convertSamples_translated", 'Goflow.C09.record_eq_ref', 'Goflow.C09.records_eq_ref', 'Goflow.C09.sample_eq_ref', 'Goflow.C09.expanded_sample_eq_ref', 'Goflow.C09.non_flow_samples_yield_nothing', 'Goflow.C09.as_rules', 'Goflow.C09.conversion_source_matches'],
     generators=[dict(name="C09", quick=800, thorough=40000)],
     harness=["impl"],
-    level_text="Theorems: record_eq_ref, records_eq_ref, sample_eq_ref, expanded_sample_eq_ref, non_flow_samples_yield_nothing, as_rules — sFlow samples map as documented for every sample and record list (frames inside raw headers are C10's subject).",
+    level_text="Theorems: record_eq_ref, records_eq_ref, sample_eq_ref, expanded_sample_eq_ref, non_flow_samples_yield_nothing, as_rules — sFlow samples map as documented for every sample and record list (frames inside raw headers are C10's subject). The conversion itself (ParseSampledHeaderConfig, SearchSFlowSampleConfig with every arm of its record switch, GetSFlowFlowSamples) is TRANSLATED from producer_sf.go on every run and proved equal to the model (C09Trans: searchSFlowSampleConfig_eq, case_* per record kind, convertSamples_translated).",
 )
 
 PROPS["C11"] = dict(
